@@ -237,9 +237,82 @@ func c18Siblings(w *ndWriter) int {
 					e.s = inst[x.inst]
 					steps = append(steps, c18SibStep{Inst: x.inst, C: c, O: e.do(&c)})
 				}
-				w.write(map[string]interface{}{"part": "siblings", "init": init, "steps": steps})
+				w.write(map[string]interface{}{"part": "siblings", "init": init, "steps": steps, "how": "one-slice"})
 				n++
 			}
+		}
+	}
+	// default constructors: NewSimpleHTTP() / NewSimpleAPI() build their own client over http.DefaultTransport (replaced by the stub for
+	// the duration): instances made this way are as independent as any others
+	failReq := func(i int, fail ...int) st { return st{i, c18Call{Op: "Request", Verb: "Get", Fail: fail}} }
+	dscripts := append(append([][]st{}, scripts...),
+		[]st{{1, c18Call{Op: "Add", Xs: []int{1}}}, {2, c18Call{Op: "Add", Xs: []int{2}}}, failReq(2, 1), failReq(1, 2), failReq(1, 1)},
+		[]st{{2, c18Call{Op: "Add", Xs: []int{2, 3}}}, req(1), {1, c18Call{Op: "Add", Xs: []int{1}}}, req(2), req(1)})
+	for _, how := range []string{"NewSimpleHTTP", "NewSimpleAPI"} {
+		for _, sc := range dscripts {
+			e := newC18Env()
+			old := http.DefaultTransport
+			http.DefaultTransport = &stubTransport{env: e, body: `{"ok":true}`}
+			mk := func() *network.SimpleHTTPDef {
+				if how == "NewSimpleAPI" {
+					return network.NewSimpleAPI("http://stub.invalid").GetSimpleHTTP()
+				}
+				return network.NewSimpleHTTP()
+			}
+			inst := map[int]*network.SimpleHTTPDef{1: mk(), 2: mk()}
+			steps := []c18SibStep{}
+			for _, x := range sc {
+				c := x.c
+				normC18(&c)
+				e.s = inst[x.inst]
+				steps = append(steps, c18SibStep{Inst: x.inst, C: c, O: e.do(&c)})
+			}
+			http.DefaultTransport = old
+			w.write(map[string]interface{}{"part": "siblings", "init": []int{}, "steps": steps, "how": how})
+			n++
+		}
+	}
+	// nested requests: interceptor 9 makes a request of its own through the SAME SimpleHTTP while the outer one is in flight (a token
+	// refresh); the nested request runs the whole chain like any other (9 does not nest again: it sees its own X-Nested header)
+	type ctxKey struct{}
+	for _, ctxHow := range []string{"outer", "derived", "background"} {
+		for _, ics := range [][]int{{9}, {1, 9}, {9, 2}, {1, 9, 2}, {1, 2, 9, 3}} {
+			e := newC18Env()
+			nestedErr := false
+			nine := network.Interceptor(func(r *http.Request) error {
+				e.calls++
+				if e.calls > 200 {
+					panic("runaway interceptor chain")
+				}
+				e.log = append(e.log, 9)
+				r.Header.Add("X-Seen", "9")
+				if r.Header.Get("X-Nested") == "" {
+					var ctx context.Context
+					switch ctxHow {
+					case "outer":
+						ctx = r.Context()
+					case "derived":
+						ctx = context.WithValue(r.Context(), ctxKey{}, 1)
+					default:
+						ctx = context.Background()
+					}
+					if res := e.s.DoNewRequest(ctx, http.Header{"X-Nested": []string{"1"}}, "GET", "http://stub.invalid/token"); res.Err != nil {
+						nestedErr = true
+					}
+				}
+				return nil
+			})
+			e.ics[9] = &nine
+			ptrs := []*network.Interceptor{}
+			for _, id := range ics {
+				ptrs = append(ptrs, e.ics[id])
+			}
+			e.s = network.NewSimpleHTTPWithClientAndInterceptors(e.clients[1], ptrs...)
+			c := c18Call{Op: "Request", Verb: "Get"}
+			normC18(&c)
+			o := e.do(&c)
+			w.write(map[string]interface{}{"part": "nested", "init": ics, "steps": []c18SibStep{{Inst: 1, C: c, O: o}}, "how": ctxHow, "nestedErr": nestedErr})
+			n++
 		}
 	}
 	return n
